@@ -26,12 +26,17 @@ import common as C
 from gen import regexes as RX
 
 PROPERTY = "C12"
-LEAN_MODULES = ["LccModel.Props.C12", "LccModel.Props.C12Grep"]
-PROPS_FILES = ["LccModel/Props/C12.lean", "LccModel/Props/C12Grep.lean"]
-NAMESPACES = {"LccModel/Props/C12.lean": "LccModel.C12", "LccModel/Props/C12Grep.lean": "LccModel.C12"}
+LEAN_MODULES = ["LccModel.Props.C12", "LccModel.Props.C12Grep", "LccModel.Props.C12Store"]
+PROPS_FILES = ["LccModel/Props/C12.lean", "LccModel/Props/C12Grep.lean", "LccModel/Props/C12Store.lean"]
+NAMESPACES = {"LccModel/Props/C12.lean": "LccModel.C12", "LccModel/Props/C12Grep.lean": "LccModel.C12",
+              "LccModel/Props/C12Store.lean": "LccModel.C12Store"}
 DRIVER = "drivers/C12.lean"
 TABLE_OPENS = ("LccModel.Filter", "LccModel.Regex (Item Cat)", "LccModel.Regex renaming RE → Rx")
 TRUSTED_BASE = [
+    "several report-based selections in one process, the report at a path replaced in between (Model/ReportStore.lean: the disk as path -> report "
+    "saved last, load_report reads it every time) are tied to the code by C12.rereport (harness/props/_c12seq.py): reports saved over each other "
+    "under ONE path by the real JSON / XML backends, selection through make_test_filter + load_suites_from_project, through cli.main(['show', ..]) "
+    "and the loader itself",
     "Lean 4.33.0 kernel; axioms of the property theorems ⊆ {propext, Classical.choice, Quot.sound}",
     "hand-written model LccModel/Model/Filter.lean of filter.py, testtree.py (filter/filter_suites/flatten), "
     "cli/utils.load_suites_from_project and make_test_filter; tied to the code by the three streams and six extracted tables",
@@ -54,11 +59,14 @@ ASSUMPTIONS = [
 ]
 RULE = ("C12.filter/C12.report: a case counts if the filter has >= 1 criterion and selects a proper non-empty subset of the "
         "project's tests; C12.glob: a pattern with >= 1 special character that matches some but not all of its strings; "
-        "distinct = hash of the whole case")
+        "distinct = hash of the whole case; C12.rereport: a case counts if a round follows a round with ANOTHER report at the same path "
+        "and the reference selection of the two reports differs")
 EXPLANATION = ("Theorems over all trees / all filters / all reports (LccModel.C12.*) proved in Lean by mutual structural "
                "induction; the executable model is tied to the code by differential streams through the real argument "
                "parser, make_test_filter, filter_suites, load_suites_from_project and the report loader, and by decision "
-               "tables extracted by executing the real functions on finite domains.")
+               "tables extracted by executing the real functions on finite domains.  The report a selection is based on is the one "
+               "at the path when the selection is made, also after a new run replaced it in the same process "
+               "(C12Store.run_reflects_current_reports, second_selection_uses_second_report; stream C12.rereport).")
 
 NEG_FLAGS = ("-", "^", "~")
 
@@ -1941,7 +1949,12 @@ class ReportStream(C.Stream):
 
 
 def streams(ctx):
+<<<<<<< HEAD
     return [Glob(), Filter(), DirLoad(), ReportStream()]
+=======
+    from props import _c12seq
+    return [Glob(), Filter(), ReportStream(), _c12seq.ReportSeq()]
+>>>>>>> w/R5F
 
 
 # ----------------------------------------------------------------------------------------------
